@@ -1443,10 +1443,29 @@ class Interp(object):
             return v.replace(const=_NOCONST)
         return self.unmodelled(fr, e, "unary op")
 
+    @staticmethod
+    def _adjacent_pair(a, b):
+        """x[1:] and x[:-1] (either order) of one and the same expression x"""
+        def sl(n):
+            if isinstance(n, ast.Subscript) and isinstance(n.slice, ast.Slice) and n.slice.step is None:
+                lo, up = n.slice.lower, n.slice.upper
+                one = lambda c, v: isinstance(c, ast.Constant) and c.value == v and not isinstance(c.value, bool)
+                neg1 = isinstance(up, ast.UnaryOp) and isinstance(up.op, ast.USub) and one(up.operand, 1)
+                if one(lo, 1) and up is None:
+                    return "tail", ast.dump(n.value)
+                if lo is None and (neg1 or one(up, -1)):
+                    return "head", ast.dump(n.value)
+            return None, None
+        (ka, xa), (kb, xb) = sl(a), sl(b)
+        return ka is not None and kb is not None and ka != kb and xa == xb
+
     def ex_BinOp(self, e, fr):
         l = self.ev(e.left, fr)
         r = self.ev(e.right, fr)
-        return self.binop(e.op, l, r, fr, e)
+        v = self.binop(e.op, l, r, fr, e)
+        if isinstance(e.op, ast.Add) and self._adjacent_pair(e.left, e.right) and v.kind == K_ARRAY:
+            v = v.replace(tags=v.tags | frozenset(["pairsum"]))        # y[1:] + y[:-1]: the integrand sums of the trapezoid rule
+        return v
 
     def binop(self, op, l, r, fr, node):
         return self.api.binop(self, fr, op, l, r, node)
